@@ -8,6 +8,7 @@ import (
 	"errors"
 	"fmt"
 	"io"
+	"sort"
 	"strconv"
 
 	"github.com/luthersystems/elps/lisp"
@@ -370,8 +371,17 @@ func (s *Serializer) loadInterfaceOpts(x interface{}, opts LoadOpts) *lisp.LVal 
 			return lisp.Errorf("allocation size %d exceeds maximum (%d)", len(x), maxAlloc)
 		}
 		m := SortedMap(x)
-		for k, v := range m {
-			lval := s.loadInterfaceOpts(v, opts)
+		// Members are converted in key order, not in Go's randomized map
+		// order: when more than one member fails to convert (two integers out
+		// of range under :exact-integers) the error returned must be the same
+		// on every run.
+		keys := make([]string, 0, len(m))
+		for k := range m {
+			keys = append(keys, k)
+		}
+		sort.Strings(keys)
+		for _, k := range keys {
+			lval := s.loadInterfaceOpts(m[k], opts)
 			if lval.Type == lisp.LError {
 				return lval
 			}
